@@ -164,6 +164,8 @@ def run(R):
         recs = gramrun.run_grammars(jobs[i:i + 800], chunk=10)
         gramrun.compare(R, recs, 'nesting', mechanism_of)
         for r in recs:
+            if r.get('grammar_error') == 'unconfirmed-timeout':
+                continue
             if 'grammar_error' in r:
                 o = info[r['gid']]
                 R.counterexample('nesting', 'grammar-construction:' + (r['grammar_error'].split(':') + ['?'])[1],
